@@ -1875,7 +1875,7 @@ theorem inv_step {s : State} (h : PoolInv s) (op : Op) : PoolInv (step s op).1 :
     | assign dst src => exact inv_assign h dst src
     | massign dst src =>
       simp only [Op.pre, Bool.and_eq_true, decide_eq_true_eq] at hpre
-      exact inv_massign h dst src hpre.2
+      exact inv_massign h dst src hpre.1.2
     | destroy slot => exact inv_destroy h slot
     | malloc slot size => exact inv_malloc h slot size
     | realloc slot blk o n =>
@@ -2068,5 +2068,295 @@ theorem stable_step {s : State} (h : PoolInv s) (op : Op) {b b' : Block} (hb : b
   have := h'.pat b' hb' i (by omega)
   rw [← e1, ← e2, ← e0] at this
   rw [this, h.pat b0 hb i hi]
+
+/-! ### Realloc keeps the old contents -/
+
+theorem realloc_prefix {s : State} (h : PoolInv s) {slot pid : Nat} {cp : Policy} {p : Pool}
+    (hs : s.slots[slot]? = some (.live pid cp)) (hp : poolAt s.pools pid = some p)
+    {b : Block} (hb : b ∈ s.blocks) (new reg off : Nat)
+    (hr : (poolRealloc p cp s.mem (some (b.reg, b.off)) b.req new).ptr = some (reg, off)) :
+    (∀ i, i < min b.req new → ∃ v, s.mem.read b.reg (b.off + i) = some v ∧
+        (poolRealloc p cp s.mem (some (b.reg, b.off)) b.req new).mem.read reg (off + i) = some v) ∧
+    ((reg, off) = (b.reg, b.off) ↔
+      (alignUp new ≤ alignUp b.req ∨
+        (b.reg = p.head.reg ∧ b.off + alignUp b.req = p.head.size ∧
+          p.head.size + (alignUp new - alignUp b.req) ≤ p.head.cap))) := by
+  obtain ⟨b1, b2, b3, b4, _⟩ := h.block.block_ok b hb
+  have hle := le_alignUp b.req
+  have hrd : ∀ i, i < b.req → ∃ v, s.mem.read b.reg (b.off + i) = some v := by
+    intro i hi
+    exact Option.isSome_iff_exists.mp (block_readable h.chunk h.block hb i (by omega))
+  have hz : new ≠ 0 := by
+    intro e; subst e
+    simp [poolRealloc] at hr
+  rcases poolRealloc_cases p cp s.mem b.reg b.off b.req new hz with
+    ⟨hle', e⟩ | ⟨hlt', hreg, hoff, hfit, e⟩ | ⟨hlt', hno, r', o', eptr, e⟩
+  · rw [e] at hr ⊢
+    simp only [Option.some.injEq, Prod.mk.injEq] at hr
+    obtain ⟨rfl, rfl⟩ := hr
+    refine ⟨?_, ?_⟩
+    · intro i hi
+      obtain ⟨v, hv⟩ := hrd i (by omega)
+      exact ⟨v, hv, hv⟩
+    · exact ⟨fun _ => Or.inl hle', fun _ => rfl⟩
+  · rw [e] at hr ⊢
+    simp only [Option.some.injEq, Prod.mk.injEq] at hr
+    obtain ⟨rfl, rfl⟩ := hr
+    refine ⟨?_, ?_⟩
+    · intro i hi
+      obtain ⟨v, hv⟩ := hrd i (by omega)
+      exact ⟨v, hv, hv⟩
+    · exact ⟨fun _ => Or.inr ⟨hreg, hoff, hfit⟩, fun _ => rfl⟩
+  · have hne : alignUp new ≠ 0 := by have := le_alignUp new; omega
+    obtain ⟨reg', off', eptr', hI, hn, hext, hfresh⟩ := inv_poolMalloc h hs hp (alignUp new) hne
+    rw [eptr] at eptr'; cases eptr'
+    rw [alignUp_idem] at hn
+    rw [e] at hr ⊢
+    simp only [eptr, Option.some.injEq] at hr
+    cases hr
+    refine ⟨?_, ?_⟩
+    · intro i hi
+      obtain ⟨v, hv⟩ := hrd i (by omega)
+      refine ⟨v, hv, ?_⟩
+      have hao : alignUp b.req ≠ 0 := by omega
+      simp only [hao, ne_eq, not_false_eq_true, if_true, Mem.copy]
+      have hsome := newBlock_readable hI hn i (by omega)
+      simp only [allocState] at hsome
+      rw [read_fill, if_pos ⟨rfl, by omega, by omega, hsome⟩]
+      have : reg + 0 = reg := rfl
+      rw [show off + i - off = i by omega, hext _ _ _ hv]; rfl
+    · constructor
+      · intro e'; exact absurd e' (hfresh b hb)
+      · intro e'
+        rcases e' with d | d
+        · omega
+        · exact absurd d hno
+
+/-! ### when are regions freed -/
+
+theorem dtor_freed (s : State) (hd : Handle) :
+    (dtor s hd).1.freed = s.freed ∨
+      ∃ pid cp p, hd = .live pid cp ∧ poolAt s.pools pid = some p ∧ p.refcount ≤ 1 ∧
+        poolAt (dtor s hd).1.pools pid = none := by
+  cases hd with
+  | empty => left; rfl
+  | moved cp => left; rfl
+  | live pid cp =>
+    rcases hp : poolAt s.pools pid with _ | p
+    · left; unfold dtor; simp only [State.pool?, hp]
+    · by_cases hr : p.refcount > 1
+      · left; unfold dtor; simp only [State.pool?, hp, hr, if_true]
+      · right
+        refine ⟨pid, cp, p, rfl, hp, by omega, ?_⟩
+        rw [poolAt_dtor hp, if_pos rfl, if_neg hr]
+
+theorem incRef_freed (s : State) (pid : Nat) : (incRef s pid).freed = s.freed := by
+  unfold incRef; split <;> rfl
+
+/-- base `Free` is called only by `Clear`, or by the destructor (directly, or inside an assignment)
+    of the last handle referring to a pool, which then ceases to exist -/
+theorem freed_step {s : State} (h : PoolInv s) (op : Op) :
+    (step s op).1.freed = s.freed ∨ (∃ slot, op = .clear slot) ∨
+      ∃ k pid cp p, (op = .destroy k ∨ (∃ src, op = .assign k src) ∨ (∃ src, op = .massign k src)) ∧
+        s.slots[k]? = some (.live pid cp) ∧ poolAt s.pools pid = some p ∧ p.refcount = 1 ∧
+        count pid s.slots = 1 ∧ poolAt (step s op).1.pools pid = none := by
+  unfold step
+  split
+  · next hpre =>
+    cases op with
+    | new slot kind cap => left; rfl
+    | newbuf slot kind cap bufsize misalign => left; rfl
+    | copy dst src =>
+      left; simp only [exec, execCopy]
+      split
+      · simp only [incRef_freed]
+      · rfl
+    | move dst src =>
+      left; simp only [exec, execMove]
+      split <;> rfl
+    | assign dst src =>
+      simp only [exec, execAssign]
+      split
+      · next pid cp hd hs hds =>
+        obtain ⟨p, hp, hrc, hpos⟩ := h.ref.live hs
+        rcases dtor_freed (incRef s pid) hd with e | ⟨pd, cpd, pp, rfl, hpp, hle, hnone⟩
+        · left; simp only [e, incRef_freed]
+        · right; right
+          rw [poolAt_incRef hp] at hpp
+          by_cases e : pd = pid
+          · subst e; simp only [if_true, Option.some.injEq] at hpp
+            subst hpp; simp only at hle; omega
+          · rw [if_neg e] at hpp
+            have := h.ref.of_pool hpp
+            exact ⟨dst, pd, cpd, pp, Or.inr (Or.inl ⟨src, rfl⟩), hds, hpp, by omega, by omega, hnone⟩
+      · left; rfl
+    | massign dst src =>
+      simp only [exec, execMassign]
+      split
+      · next pid cp hd hs hds =>
+        rcases dtor_freed s hd with e | ⟨pd, cpd, pp, rfl, hpp, hle, hnone⟩
+        · left; simp only [e]
+        · right; right
+          have := h.ref.of_pool hpp
+          exact ⟨dst, pd, cpd, pp, Or.inr (Or.inr ⟨src, rfl⟩), hds, hpp, by omega, by omega, hnone⟩
+      · left; rfl
+    | destroy slot =>
+      simp only [exec, execDestroy]
+      split
+      · next hd hs =>
+        rcases dtor_freed s hd with e | ⟨pd, cpd, pp, rfl, hpp, hle, hnone⟩
+        · left; simp only [e]
+        · right; right
+          have := h.ref.of_pool hpp
+          exact ⟨slot, pd, cpd, pp, Or.inl rfl, hs, hpp, by omega, by omega, hnone⟩
+      · left; rfl
+    | malloc slot size =>
+      left; simp only [exec, execMalloc]
+      rcases hac : allocCore s slot none 0 size with _ | ⟨s1, pid, r⟩
+      · rfl
+      · obtain ⟨cp, p, hs, hp, rfl, rfl⟩ := allocCore_some hac
+        simp only
+        split <;> rfl
+    | realloc slot blk o n =>
+      left; simp only [exec, execRealloc]
+      cases blk with
+      | none =>
+        simp only
+        rcases hac : allocCore s slot none o n with _ | ⟨s1, pid, r⟩
+        · rfl
+        · obtain ⟨cp, p, hs, hp, rfl, rfl⟩ := allocCore_some hac
+          simp only
+          split <;> rfl
+      | some bid =>
+        simp only
+        rcases hf : s.findBlock bid with _ | b
+        · rfl
+        · simp only
+          rcases hac : allocCore s slot (some (b.reg, b.off)) o n with _ | ⟨s1, pid, r⟩
+          · rfl
+          · obtain ⟨cp, p, hs, hp, rfl, rfl⟩ := allocCore_some hac
+            simp only
+            split
+            · rfl
+            · split
+              · split <;> rfl
+              · rfl
+    | clear slot => right; left; exact ⟨slot, rfl⟩
+    | stat slot =>
+      left; simp only [exec, execStat]
+      split
+      · split <;> rfl
+      · rfl
+  · left; rfl
+
+/-! ### the content check never fails -/
+
+theorem checkBytes_true (a : Array Nat) (o : Nat) (f : Nat → Nat) : ∀ (n i : Nat),
+    (∀ j, i ≤ j → j < i + n → a[o + j]? = some (f j)) → checkBytes a o f i n = true := by
+  intro n; induction n with
+  | zero => intro i _; rfl
+  | succ n ih =>
+    intro i h
+    simp only [checkBytes]
+    rw [if_pos (h i (Nat.le_refl _) (by omega))]
+    exact ih (i + 1) (fun j h1 h2 => h j (by omega) (by omega))
+
+theorem blockOk_of_pat {m : Mem} {b : Block}
+    (h : ∀ i, i < b.req → m.read b.reg (b.off + i) = some (pat b.id i)) (hpos : 0 < b.req) :
+    blockOk m b = true := by
+  unfold blockOk
+  rcases hm : m[b.reg]? with _ | a
+  · have := h 0 hpos
+    simp [Mem.read, hm] at this
+  · simp only
+    apply checkBytes_true
+    intro j _ hj
+    have := h j (by omega)
+    simpa [Mem.read, hm] using this
+
+theorem memCheck_none {s : State} (h : PoolInv s) : memCheck s = none := by
+  unfold memCheck
+  rw [Option.map_eq_none_iff, List.find?_eq_none]
+  intro b hb
+  have hb := List.mem_reverse.mp hb
+  simp [blockOk_of_pat (h.pat b hb) (h.block.block_ok b hb).2.2.2.1]
+
+/-! ### zero-size requests -/
+
+theorem set_same {α : Type} {l : List α} {i : Nat} {a : α} (h : l[i]? = some a) : l.set i a = l := by
+  obtain ⟨hi, e⟩ := List.getElem?_eq_some_iff.mp h
+  rw [← e]; exact List.set_getElem_self hi
+
+theorem poolAt_getElem? {pools : List (Option Pool)} {pid : Nat} {p : Pool} (h : poolAt pools pid = some p) :
+    pools[pid]? = some (some p) := by
+  unfold poolAt at h
+  split at h
+  · next q hq => cases h; exact hq
+  · cases h
+
+theorem allocState_same {s : State} {slot pid : Nat} {cp : Policy} {p : Pool}
+    (hs : s.slots[slot]? = some (.live pid cp)) (hp : poolAt s.pools pid = some p) (ptr : Ptr) :
+    allocState s slot pid ⟨p, cp, s.mem, ptr⟩ = s := by
+  unfold allocState
+  simp only [set_same hs, set_same (poolAt_getElem? hp)]
+
+theorem poolRealloc_zero (p : Pool) (cp : Policy) (mem : Mem) (orig : Ptr) (old : Nat) :
+    poolRealloc p cp mem orig old 0 = ⟨p, cp, mem, none⟩ := by
+  unfold poolRealloc
+  cases orig with
+  | none => rfl
+  | some ro => simp
+
+theorem zero_realloc {s : State} (h : PoolInv s) (slot : Nat) (blk : Option Nat) (old : Nat)
+    (hpre : (Op.realloc slot blk old 0).pre s = true) :
+    ∃ sz cap, step s (.realloc slot blk old 0) = (s, .ptr none sz cap false none) := by
+  unfold step
+  rw [if_pos hpre]
+  simp only [Op.pre, Bool.and_eq_true] at hpre
+  obtain ⟨pid, cp, hs⟩ := isLive_iff.mp hpre.1.1.1
+  obtain ⟨p, hp, _⟩ := h.ref.live hs
+  simp only [exec, execRealloc]
+  cases blk with
+  | none =>
+    simp only [allocCore_eq hs hp, poolRealloc_zero, allocState_same hs hp]
+    exact ⟨_, _, rfl⟩
+  | some bid =>
+    simp only
+    rcases hf : s.findBlock bid with _ | b
+    · simp [hf] at hpre
+    · simp only [allocCore_eq hs hp, poolRealloc_zero, allocState_same hs hp]
+      exact ⟨_, _, rfl⟩
+
+theorem zero_malloc {s : State} (h : PoolInv s) (slot : Nat) (hl : isLive s slot = true) :
+    ∃ sz cap, step s (.malloc slot 0) = (s, .ptr none sz cap false none) := by
+  unfold step
+  have hpre : (Op.malloc slot 0).pre s = true := by simp [Op.pre, hl, maxSize]
+  rw [if_pos hpre]
+  obtain ⟨pid, cp, hs⟩ := isLive_iff.mp hl
+  obtain ⟨p, hp, _⟩ := h.ref.live hs
+  simp only [exec, execMalloc, allocCore_eq hs hp, poolRealloc_zero, allocState_same hs hp]
+  exact ⟨_, _, rfl⟩
+
+/-! ### copies share the pool -/
+
+theorem copy_shares {s : State} (h : PoolInv s) (dst src : Nat) (hpre : (Op.copy dst src).pre s = true) :
+    ∃ pid cp p, s.slots[src]? = some (.live pid cp) ∧
+      (step s (.copy dst src)).1.slots[src]? = some (.live pid cp) ∧
+      (step s (.copy dst src)).1.slots[dst]? = some (.live pid cp) ∧
+      poolAt (step s (.copy dst src)).1.pools pid = some p ∧ p.refcount = count pid s.slots + 1 := by
+  unfold step
+  rw [if_pos hpre]
+  simp only [Op.pre, Bool.and_eq_true, isEmpty_iff] at hpre
+  obtain ⟨pid, cp, hs⟩ := isLive_iff.mp hpre.2
+  obtain ⟨p, hp, hrc, _⟩ := h.ref.live hs
+  have hne : dst ≠ src := by intro e; rw [e, hs] at hpre; cases hpre.1
+  have hdl : dst < s.slots.length := (List.getElem?_eq_some_iff.mp hpre.1).1
+  refine ⟨pid, cp, { p with refcount := p.refcount + 1 }, hs, ?_, ?_, ?_, by simp only; omega⟩
+  · simp only [exec, execCopy, hs, incRef_slots]
+    rw [getElem?_set_ne' hne]; exact hs
+  · simp only [exec, execCopy, hs, incRef_slots]
+    rw [List.getElem?_set, if_pos rfl, if_pos hdl]
+  · simp only [exec, execCopy, hs]
+    rw [poolAt_incRef hp, if_pos rfl]
 
 end Sonic.Proofs.Pool
